@@ -141,6 +141,10 @@ func oracleEstimator(c *Case) string {
 	if c.Kind == "normal" && math.IsNaN(th[1]) {
 		return fmt.Sprintf("returned standard deviation is NaN (mu = %v) although the data carry weight", th[0])
 	}
+	if c.Kind == "normal" && math.IsNaN(th[0]) {
+		// e.g. log-weights all above 709 or all below -745 exponentiated without the gamma_max rescaling
+		return fmt.Sprintf("returned mean is NaN (sigma = %v) without an error although the data carry weight", th[1])
+	}
 	if c.Kind == "normal" && !c.Pert {
 		return ""
 	}
@@ -329,7 +333,7 @@ func hunt(o Opts) {
 	// 2. tiny data sets over a grid, per family
 	if res["found"] == false {
 		vals := []float64{0, 1, 2, 5}
-		gs := [][]float64{nil, {0, 0, 0}, {0, -1, -30}, {-2, 0, math.Inf(-1)}, {-700, -700, -700}}
+		gs := [][]float64{nil, {0, 0, 0}, {0, -1, -30}, {-2, 0, math.Inf(-1)}, {-700, -700, -700}, {800, 801, 799.5}, {-900, -901, -899.5}}
 	grid:
 		for kind := 0; kind < 5; kind++ {
 			for n := 1; n <= 3; n++ {
